@@ -74,13 +74,13 @@ PROPERTIES = {
         "assumptions": ["draws in [0,1)"],
     },
     "C03": {
-        "components": [("surv", 1200, 200000)],
+        "components": [("surv", 1200, 60000)],
         "rule": SURV_RULE,
         "explanation": "theorems frontLoop_length / _nodup / _subset, survivalDo_unconstrained, survivalDo_constrained (C16.constr_length for the constrained class): exactly min(n_survive, n) distinct positions of the input; correspondence: survivor identity list and rank attributes equal the model's; object identity and X/F/G/H snapshots checked on the real objects",
         "assumptions": ["oracle contracts (IsFronts, argsort permutation, feasibility partition) hold - evaluated on every record"],
     },
     "C04": {
-        "components": [("surv", 1200, 200000)],
+        "components": [("surv", 1200, 60000)],
         "gen_args": {"surv": {"classes": ("rnc",)}},
         "rule": SURV_RULE,
         "explanation": "theorems frontLoop_rank_respect, first_front_kept, dom_rank_lt, no_discarded_dominates_survivor, isFronts_unique, feasible_first, infeasible_by_cv, rankOf_eq; correspondence as C03; the NDS result is checked against the exact peeling characterisation of fronts on every record",
@@ -158,7 +158,7 @@ PROPERTIES = {
         "gen_args_thorough": {"trunc": {"max_n": 120}},
         "parallel": True,
         "rule": "single non-dominated fronts of 2M+2..36 points (thorough ..120), 2..4 objectives (continuous simplex / sphere fronts, grid-valued, constant objective, tied extremes, duplicates, badly scaled), truncated by RankAndCrowding to n_survive in [2M, N) (two thirds) or [1, N), five metrics, compiled engine in-process (pcd with >= 3 objectives only where the kernel model predicts no out-of-bounds index), a third also in the pure-Python engine in a worker process with the same seed; plus the mixed-front survival records of C03; distinct = hash; non-trivial = a front was cut",
-        "explanation": "theorems take_keeps_top, boundary_retained, cdSorted_top_count, dropped_smallest (+ C13 extremes / well-formedness); greedy pruning: sort_mono, nnProduct_mono, cMnn_mono, mnnFallback_stale_le_live (mnn / 2nn definition), gapF_mono, sumF_mono, pcdFallback_stale_le_live and - through C13.pcdKernelF_refines - pcdKernel_stale_le_live (pcd definition and compiled kernel): every pruned point keeps a value <= every live point's, so truncation_drops_removed applies; for the compiled mnn / 2nn kernel the same follows through C13.mnnKernelF_refines (mnnKernel_stale_le_live) on every front without distance ties; C15d composes them: mnn_truncation_is_greedy - for 1 <= n_remove <= N - M the members kept by the cut I[:-n_remove] are exactly the live set after n_remove greedy removals (pruneLive), when the compared values do not tie (mnnKernel_truncation_is_greedy for the compiled kernel). The n_remove forwarded to the crowding function and the crowding values it returned are checked against the Lean metric models inside every survival record; the dropped set is compared with an independent one-at-a-time pruning reference on tie-free fronts in both engines, down to N - M kept members",
+        "explanation": "theorems take_keeps_top, boundary_retained, cdSorted_top_count, dropped_smallest (+ C13 extremes / well-formedness); greedy pruning: sort_mono, nnProduct_mono, cMnn_mono, mnnFallback_stale_le_live (mnn / 2nn definition), gapF_mono, sumF_mono, pcdFallback_stale_le_live and - through C13.pcdKernelF_refines - pcdKernel_stale_le_live (pcd definition and compiled kernel): every pruned point keeps a value <= every live point's, so truncation_drops_removed applies; for the compiled mnn / 2nn kernel the same follows through C13.mnnKernelF_refines (mnnKernel_stale_le_live) on every front without distance ties; C15d composes them: mnn_truncation_is_greedy - for 1 <= n_remove <= N - M the members kept by the cut I[:-n_remove] are exactly the live set after n_remove greedy removals (pruneLive), when the compared values do not tie (mnnKernel_truncation_is_greedy for the compiled kernel); C15e: the same for pcd (pcd_truncation_is_greedy, pcdKernel_truncation_is_greedy) wherever the compiled pcd kernel is defined. The n_remove forwarded to the crowding function and the crowding values it returned are checked against the Lean metric models inside every survival record; the dropped set is compared with an independent one-at-a-time pruning reference on tie-free fronts in both engines, down to N - M kept members",
         "assumptions": ["descending argsort contract (checked on every record)", "for the compiled mnn / 2nn kernel greedy-pruning equivalence rests on the reference comparison, not on a theorem"],
     },
     "C17": {
